@@ -1,12 +1,14 @@
 package props
 
 import (
+	"encoding/json"
 	"fmt"
 	"strings"
 	"testing"
 
 	"verif/harness/ast"
 	"verif/harness/gen"
+	"verif/harness/run"
 
 	"pgregory.net/rapid"
 )
@@ -257,6 +259,20 @@ func c05Labels(kind, op string, a, b *operand) []string {
 	return ls
 }
 
+// c05NoSuchType: a program computing r = (x is WORD) for a word that names no type either
+// is refused or finds r false.
+func c05NoSuchType(c *DCase) string {
+	src := c.Source()
+	o := run.InProc(src, c.inFiles(), nil, run.Opts{Budget: implBudget})
+	if o.Class == "syntax" || o.Class == "runtime" {
+		return ""
+	}
+	if o.Class != "ok" || string(o.Stdout) != "false|false|true|false\n" {
+		return fmt.Sprintf("%s: outcome %s %s, output %q; no value has a runtime type of that name, so the test is false (or refused)", c.Tag, o.Class, o.Msg, clip(string(o.Stdout)))
+	}
+	return ""
+}
+
 func TestC05(t *testing.T) {
 	rec := start(t, "C05", "exploration",
 		"exhaustive grid: every operator x every ordered pair of representative operands (num, str, bool, null, unset, arr, obj, regex, fn, native) x supply mode (literal, variable, document field, container element / member, function result, for-in loop variable), plus `is` x 9 type names and unary ! - +; then random (op, a, b) with generated scalar values. One tiny program per case; expected kind and value (or RuntimeError) from the section-3 tables as implemented by refjq. Every case is non-trivial; distinct = distinct (operator, operand representatives or values, supply mode).")
@@ -264,6 +280,16 @@ func TestC05(t *testing.T) {
 	rec.Assume("refjq's section-3 tables are the documented coercion rules (DESIGN.md section 3, reviewed against the property text)")
 	rec.Assume("Go's regexp package decides RE2 validity and matching for ~ and !~")
 	rec.Replayer("operator", replayDiff(false))
+	rec.Replayer("no-such-type", func(raw json.RawMessage) error {
+		var c DCase
+		if err := json.Unmarshal(raw, &c); err != nil {
+			return err
+		}
+		if m := c05NoSuchType(&c); m != "" {
+			return fmt.Errorf("%s\nprogram:\n%s", m, c.Source())
+		}
+		return nil
+	})
 	if rec.ReplayOnly() {
 		return
 	}
@@ -326,6 +352,22 @@ func TestC05(t *testing.T) {
 			}
 		}
 	}
+	// `is` with a word that names no type: no value has that runtime type, so the answer is
+	// false (or the program is refused) for every operand - never true (direct oracle)
+	if shard == 0 {
+		for _, typ := range []string{"str", "String", "int", "boolean", "nil", "float", "list", "dict", "undefined", "nativefunction", "x"} {
+			for ai := range ops {
+				for _, m := range modesFor(&ops[ai], nil) {
+					c := c05Program("is", typ, &ops[ai], nil, m)
+					src := c.Source()
+					rec.Case(src, true, "is-with-a-word-that-names-no-type", "kind:"+ops[ai].Kind)
+					if msg := c05NoSuchType(c); msg != "" {
+						rec.Violation("no-such-type", c, src, msg)
+					}
+				}
+			}
+		}
+	}
 	for _, op := range []string{"!", "-", "+"} {
 		for ai := range ops {
 			for _, m := range modesFor(&ops[ai], nil) {
@@ -375,6 +417,46 @@ func TestC05(t *testing.T) {
 		}
 		c := &DCase{Prog: ast.Prog(fun, apply, ast.Rule("BEGIN", nil, ast.Block(stmts...))), Tag: "site reuse: " + strings.Join(names, " ; ")}
 		runDiff(rec, rt, "operator", c, false, nil, "op:"+op, "site-reuse")
+	})
+
+	// the operator is entered again while its right operand is being evaluated (a recursive
+	// function whose recursive call is the right, or the left, operand): the outer
+	// evaluation still applies the operator to its own left operand
+	check(rec, "operator-reentered", scale(3000, 1500000), func(rt *rapid.T) {
+		op := rapid.SampledFrom(c05BinOps).Draw(rt, "op")
+		depth := rapid.IntRange(1, 6).Draw(rt, "depth")
+		var vals []*ast.Node
+		numeric := rapid.Bool().Draw(rt, "numeric")
+		for k := 0; k < 4; k++ {
+			if numeric {
+				vals = append(vals, ast.Num(fmt.Sprint(rapid.IntRange(0, 9).Draw(rt, "nv"))))
+			} else {
+				vals = append(vals, storable[rapid.IntRange(0, len(storable)-1).Draw(rt, "gv")].Lit())
+			}
+		}
+		own := ast.Idx(ast.Id("vals"), ast.Bin("%", ast.Id("n"), ast.Num("4")))
+		if numeric && rapid.Bool().Draw(rt, "plainn") {
+			own = ast.Id("n")
+		}
+		again := ast.Call(ast.Id("rec"), ast.Bin("-", ast.Id("n"), ast.Num("1")))
+		e := ast.Bin(op, own, again)
+		side := rapid.SampledFrom([]string{"right", "right", "left", "both"}).Draw(rt, "recside")
+		switch side {
+		case "left":
+			e = ast.Bin(op, again, own)
+		case "both":
+			e = ast.Bin(op, ast.Paren(ast.Bin(op, own.Clone(), again.Clone())), again)
+			if depth > 4 {
+				depth = 4
+			}
+		}
+		base := vals[0].Clone()
+		recf := ast.Func("rec", []string{"n"}, ast.Block(ast.If(ast.Bin("<=", ast.Id("n"), ast.Num("0")), ast.Block(ast.Return(base))), ast.Return(e)))
+		fun := ast.Func("fun", nil, ast.Block(ast.Return(ast.Num("1"))))
+		stmts := []*ast.Node{ast.ExprS(ast.Set(ast.Id("vals"), ast.Arr(vals...))), ast.ExprS(ast.Set(ast.Id("r"), ast.Call(ast.Id("rec"), ast.Num(fmt.Sprint(depth)))))}
+		stmts = append(stmts, c05Observe()...)
+		c := &DCase{Prog: ast.Prog(fun, recf, ast.Rule("BEGIN", nil, ast.Block(stmts...))), Tag: fmt.Sprintf("operator re-entered: %s, recursion on the %s, depth %d", op, side, depth)}
+		runDiff(rec, rt, "operator", c, false, nil, "op:"+op, "operator-reentered", "recursion-"+side)
 	})
 
 	// the right operand changes what the left operand names: each operand has the value
